@@ -1,7 +1,6 @@
 package core
 
 import (
-	"time"
 	"encoding/binary"
 	"encoding/json"
 	"flag"
@@ -10,6 +9,7 @@ import (
 	"path/filepath"
 	"strconv"
 	"strings"
+	"time"
 )
 
 // BatchResult is what a worker appends per finished batch.
